@@ -365,6 +365,28 @@ def creation_sites(prog, body):
     return out
 
 
+def phi_mentions(body, o, pred, depth=2, _seen=None):
+    """origin_mentions that also looks into every definition of a multiply-assigned local (a value
+    that is `a` on one path and `b` on another mentions what a or b mention): needed when a helper
+    with several returns was inlined, or a `let x; if … { x = a } else { x = b }` was written"""
+    found = list(origin_mentions(o, pred))
+    if depth <= 0:
+        return found
+    seen = _seen if _seen is not None else set()
+    roots = origin_mentions(o, lambda x: x[0] == "var" and x[3] is None)
+    for rv in roots:
+        l = rv[1]
+        if l in seen:
+            continue
+        seen.add(l)
+        for bi, si, whole in body.defs.get(l, []):
+            if not whole or bi not in body.live_blocks():
+                continue
+            d = body.origin_call(bi) if si == "T" else body.origin_rvalue(body.blocks[bi]["stmts"][si]["rv"])
+            found += phi_mentions(body, d, pred, depth - 1, seen)
+    return found
+
+
 def resolved_access_path(prog, body, o, depth=0):
     """access path of o with closure captures resolved through the creating bodies: inside
     `move || storage.set(key, value)` the path of `key` is whatever the parent moved in (e.g.
@@ -414,7 +436,12 @@ ANCHOR_FN_SUFFIXES = (
 
 
 def is_anchor_fn(name):
-    return any(name == s or name.endswith("::" + s) for s in ANCHOR_FN_SUFFIXES)
+    if any(name == s or name.endswith("::" + s) for s in ANCHOR_FN_SUFFIXES):
+        return True
+    # every function a rule names stays a call (the same set the CFG inliner respects)
+    import inline
+
+    return inline._is_named(name)
 
 
 def _subst_args(o, amap, depth=0):
